@@ -325,6 +325,41 @@ fn c27auto() {
     println!("C27auto no history length up to 45 lost a card");
 }
 
+fn c40stale() {
+    // committed frames, then a WAL growth (batch pre-sizing) followed by a commit that inserts nothing
+    let dir = tempfile::tempdir().unwrap();
+    let p = dir.path().join("a.mv2");
+    let mut m = Memvid::create(&p).unwrap();
+    m.put_bytes(b"first committed document, alpha").unwrap();
+    m.put_bytes(b"second committed document, beta").unwrap();
+    m.commit().unwrap();
+    let mut opts = PutManyOpts::default();
+    opts.wal_pre_size_bytes = 1 << 20;
+    m.begin_batch(opts).unwrap();
+    m.delete_frame(1).unwrap();
+    m.end_batch().unwrap();
+    let c = m.commit();
+    println!("C40stale commit after pre-size + delete: {:?}", c.as_ref().map_err(|e| e.to_string()));
+    let r0 = m.frame_canonical_payload(0);
+    println!("C40stale same handle, payload of frame 0: {:?}", r0.map(|b| String::from_utf8_lossy(&b).into_owned()).map_err(|e| e.to_string()));
+    let id = m.put_bytes(b"third document, written after the growth").map_err(|e| e.to_string());
+    println!("C40stale put after: {:?}", id);
+    println!("C40stale commit: {:?}", m.commit().map_err(|e| e.to_string()));
+    drop(m);
+    match Memvid::open_read_only(&p) {
+        Ok(m2) => {
+            println!("C40stale reopened: frames = {}", m2.frame_count());
+            for i in 0..m2.frame_count() as u64 { println!("C40stale   frame {} payload: {:?}", i, m2.frame_by_id(i).map(|f| f.status).map_err(|e| e.to_string())); }
+        }
+        Err(e) => println!("C40stale reopen failed: {}", e),
+    }
+    let v = Memvid::verify(&p, true);
+    println!("C40stale verify(deep): {:?}", v.map(|r| r.overall_status).map_err(|e| e.to_string()));
+    let mut m3 = Memvid::open(&p).unwrap();
+    println!("C40stale payload 0 after reopen: {:?}", m3.frame_canonical_payload(0).map(|b| String::from_utf8_lossy(&b).into_owned()).map_err(|e| e.to_string()));
+    println!("C40stale payload 2 after reopen: {:?}", m3.frame_canonical_payload(2).map(|b| String::from_utf8_lossy(&b).into_owned()).map_err(|e| e.to_string()));
+}
+
 fn c32() {
     let dir = tempfile::tempdir().unwrap();
     let p = dir.path().join("a.mv2");
@@ -542,5 +577,5 @@ fn c08() {
 
 fn main() {
     let which = std::env::args().nth(1).unwrap_or_default();
-    match which.as_str() { "c05"=>c05(), "c26"=>c26(), "c20"=>c20(), "c20blob"=>c20blob(), "c07"=>c07(), "c39"=>c39(), "c19"=>c19(), "c02growth"=>c02growth(), "c04"=>c04(), "c27auto"=>c27auto(), "c27rec"=>c27rec(), "c23mem"=>c23mem(), "c20wal"=>c20wal(), "c26replay"=>c26replay(), "c18replay"=>c18replay(), "c02replay"=>c02replay(), "c32"=>c32(), "c11"=>c11(), "c17"=>c17(), "c08"=>c08(), "c29"=>c29(), "c14"=>c14(), "c09"=>c09(), "c18"=>c18(), "c23"=>c23(), "c16"=>c16(), "c40"=>c40(), "c24"=>c24(), "c15"=>c15(), "c22"=>c22(), _=>{ c05(); c26(); c20(); c11(); c17(); } }
+    match which.as_str() { "c05"=>c05(), "c26"=>c26(), "c20"=>c20(), "c20blob"=>c20blob(), "c07"=>c07(), "c39"=>c39(), "c19"=>c19(), "c02growth"=>c02growth(), "c04"=>c04(), "c40stale"=>c40stale(), "c27auto"=>c27auto(), "c27rec"=>c27rec(), "c23mem"=>c23mem(), "c20wal"=>c20wal(), "c26replay"=>c26replay(), "c18replay"=>c18replay(), "c02replay"=>c02replay(), "c32"=>c32(), "c11"=>c11(), "c17"=>c17(), "c08"=>c08(), "c29"=>c29(), "c14"=>c14(), "c09"=>c09(), "c18"=>c18(), "c23"=>c23(), "c16"=>c16(), "c40"=>c40(), "c24"=>c24(), "c15"=>c15(), "c22"=>c22(), _=>{ c05(); c26(); c20(); c11(); c17(); } }
 }
